@@ -424,6 +424,15 @@ func runSeq(c seqCase, clk *vclock.Clock) (obs []obsT, nodeAfter []int64, fin []
 				panic("generator failure injected by the harness")
 			}
 		}
+		// every resource of the case that has no rules of its own (it may be the one an associated-resource
+		// rule counts) gets a permissive rule and loses it again through the per-resource path: no effect
+		for j := range c.Rules {
+			if len(c.Rules[j]) == 0 {
+				// (a throttling rule reads no statistic: loading it creates no resource node, which the model would have to know about)
+				flow.LoadRulesOfResource(resName(c.ID, j), []*flow.Rule{{ID: "p", Resource: resName(c.ID, j), ControlBehavior: flow.Throttling, Threshold: 1e15}})
+				flow.ClearRulesOfResource(resName(c.ID, j))
+			}
+		}
 		ri := c.Ops[i].Res
 		g := &flow.Rule{ID: "g" + strconv.Itoa(i), Resource: resName(c.ID, ri), TokenCalculateStrategy: 5, ControlBehavior: 4, Threshold: 1e15}
 		var err error
